@@ -27,6 +27,11 @@ def sweeps(tier):
         sweep(vals + [ctl], singles, fmts=FMTS, cfmts=('s', '6s'), sizes=(-1, 0, 1, 4, 9, 40),
               etcs=('default', 'tilde'), nulls=(False, True), missings=(False,), forms=('name', 'expr')),
     ]
+    # untrusted text as it arrives from forms: CR LF line ends, NUL, Ctrl-Z, quotes, percent escapes of the special characters
+    wild = [text('a\r\n<Q b\x00c\x1a', True), text("%3Cq%3E '<Q' +%2B\r", True), text('<', True), text('\n<\n', True)]
+    out.append(sweep(wild, singles + [['sql_quote', 'html_quote'], ['url_unquote', 'newline_to_br'], ['url_unquote_plus', 'sql_quote'],
+                                      ['newline_to_br', 'sql_quote', 'upper']],
+                     fmts=('', 'sql-quote', 'url-unquote', 'multi-line', 'strip'), sizes=(-1, 3), forms=('name', 'expr')))
     if tier == 'thorough':
         out.append(sweep(vals, [m for m in _subsets(2)], fmts=FMTS, cfmts=('s', '6s'), sizes=(-1, 3, 12),
                          forms=('name',)))
